@@ -83,6 +83,10 @@ def scenarios(thorough):
                                           "w3": [g("k1"), r]}, mpk=2, maxtime=4),
     ]
     out.append(scen(["w1", "w2", "w3"], ["k1"], {"w1": [g("k1"), r], "w2": [g("k1"), r], "w3": [g("k1"), r, g("k1"), r]}))
+    # MaxConnsPerKey 0 (conn_max_idle_count 0, "keep no idle connections"): every Return finds the bucket full
+    out.append(scen(["w1", "w2"], ["k1"], {"w1": [g("k1"), r, g("k1"), r], "w2": [g("k1"), r]}, mpk=0))
+    out.append(scen(["w1", "w2"], ["k1", "k2"], {"w1": [g("k1"), r, g("k2"), r], "w2": [g("k2"), r, g("k1"), d]},
+                    mpk=0, mk=1, close=False))
     if thorough:
         ws = ["w%d" % i for i in range(1, 9)]
         out += [
@@ -91,6 +95,35 @@ def scenarios(thorough):
                                           for i, w in enumerate(ws)}, mpk=2, mk=2, maxtime=4),
             scen(ws[:3], ["k1"], {w: [g("k1"), r, g("k1"), r, g("k1"), d] for w in ws[:3]}, close=False, mpk=1, maxtime=5),
         ]
+    return out
+
+
+def merges(a, b):
+    if not a or not b:
+        yield list(a) + list(b)
+        return
+    for m in merges(a[1:], b):
+        yield [a[0]] + m
+    for m in merges(a, b[1:]):
+        yield [b[0]] + m
+
+
+def full_bucket_windows(thorough):
+    """Directed schedules "bucket full + concurrent Get": two connections are out, one is returned (the bucket of
+    MaxConnsPerKey 1 is full), then a Return of the second one and a Get by a third worker - whose receive from the
+    bucket is lock-free - are interleaved in every order (all merges of their steps, one spare step each)."""
+    out = []
+    ops = {"w1": [["get", "k1"], ["ret"]], "w2": [["get", "k1"], ["ret"]], "w3": [["get", "k1"], ["ret"]]}
+    prefix = ["w1:get:k1", "w1", "w2:get:k1", "w2", "w2:ret", "w2"]
+    ret = ["w1:ret", "w1", "w1"]
+    get = ["w3:get:k1", "w3", "w3"]
+    for close in (True, False):
+        sc = scen(["w1", "w2", "w3"], ["k1"], ops, close=close, mpk=1)
+        tails = [[]] if not (thorough and close) else [[], ["closer", "closer"]]
+        for m in merges(ret, get):
+            for tl in tails:
+                for pre in ([], ["sweeper", "sweeper"]):
+                    out.append({"cfg": sc, "pol": "list", "sched": pre + prefix + m + tl, "src": "window"})
     return out
 
 
@@ -109,6 +142,9 @@ def run(ctx, replay):
         else:
             r = ctx.tlc_expect_ok("Pool", None, name="mc", workers=8, timeout=600,
                                   cfg_text=cfg(2, ("k1",), rounds=1, maxtime=3, breaks=1))
+        r0 = ctx.tlc_expect_ok("Pool", None, name="mc0", workers=4, timeout=600,
+                               cfg_text=cfg(2, ("k1",), mpk=0, rounds=2 if thorough else 1, maxtime=2, breaks=0))
+        ctx.cov["states_max_conns_per_key_0"] = r0["distinct"]
         ctx.cov["states"] = r["distinct"]
         ctx.cov["transitions"] = r["generated"]
         ctx.cov["model_depth"] = r["depth"]
@@ -153,6 +189,7 @@ def run(ctx, replay):
         for b in (tlc_behs if thorough else vlib.sample(ctx.rng, tlc_behs, 300)):
             c = dict(b["cfg"], ops=ops_of(b["sched"]))
             behs.append({"cfg": c, "pol": "list", "sched": b["sched"], "src": "tlc"})
+        behs += full_bucket_windows(thorough)
         for sc in scenarios(thorough):
             horizon = 16 * len(sc["workers"]) + 12
             behs.append({"cfg": sc, "pol": "db", "delays": [], "src": "db"})
@@ -169,7 +206,7 @@ def run(ctx, replay):
 
     overlay = base.instrument(ctx, FILES)
     binary = ctx.build_harness("poolcheck", overlay=overlay)
-    events = ctx.run_shards(binary, behs)
+    events = base.run_shards_resilient(ctx, binary, behs)
     by_id = {b["id"]: b for b in behs}
     by_t = {}
     for e in events:
